@@ -18,7 +18,8 @@ NONDET_PREFIXES = ("random.", "numpy.random.", "secrets.", "uuid.", "time.", "da
                    "multiprocessing.current_process", "socket.", "platform.", "getpass.", "tempfile.")
 NONDET_BUILTINS = {"builtins.id", "builtins.hash", "builtins.input", "builtins.object"}
 SEED_FUNCS = {"random.seed", "numpy.random.seed"}
-UNORDERED = {".imap_unordered", "concurrent.futures.as_completed", "asyncio.as_completed", ".as_completed"}
+UNORDERED = {".imap_unordered", "concurrent.futures.as_completed", "asyncio.as_completed", ".as_completed", ".ready", ".successful",
+             "concurrent.futures.wait", ".done"}
 
 
 def _is_nondet(name: str) -> bool:
@@ -116,9 +117,15 @@ def r1(ctx):
 def r2(ctx):
     ana = ctx.ana
     # no completion-order primitives, no callbacks
-    for cs in all_calls(ana, lambda n: n in UNORDERED):
-        ctx.fail(cs.caller, f"{callee_fq(cs)} yields results in completion order", line=cs.node.lineno,
-                 role=f"unordered:{callee_fq(cs)}", expected="gather by cluster index", found=unparse(cs.node))
+    saved_ev, ctx.evidence = ctx.evidence, True       # a completion-order primitive is wrong however the gather is written
+    try:
+        for cs in all_calls(ana, lambda n: n in UNORDERED):
+            if callee_fq(cs) in (".ready", ".successful", ".done") and not _task_handle(ana, cs):
+                continue
+            ctx.fail(cs.caller, f"{callee_fq(cs)} makes the gather depend on which task has finished (completion order)", line=cs.node.lineno,
+                     role=f"unordered:{callee_fq(cs)}", expected="gather by cluster index, waiting for each task in turn", found=unparse(cs.node))
+    finally:
+        ctx.evidence = saved_ev
     submits = all_calls(ana, lambda n: n in (".apply_async", ".map_async", ".starmap_async", ".submit"))
     if not submits:
         raise AnalysisError("no asynchronous task submission found (confirmed floor: 1)")
@@ -230,6 +237,31 @@ def r2(ctx):
         ok = dep is not None and any(is_submit(n) for n in dep.call_names)
         ctx.check(ok, prod, "the gathered list is the list of submitted tasks", line=cs.node.lineno, role="consumer:same-list",
                   expected="tasks produced by _setup_optimization_task", found=unparse(arg) if arg is not None else "missing")
+
+
+def _task_handle(ana, cs) -> bool:
+    """The receiver of .ready() / .done() is (data-dependent on) an asynchronous task handle."""
+    recv = cs.node.func.value if isinstance(cs.node.func, ast.Attribute) else None
+    if recv is None:
+        return False
+    try:
+        dep = Flow(ana, cs.caller).closure(recv)
+    except AnalysisError:
+        return True
+    if any(n in (".apply_async", ".submit", ".map_async") for n in dep.call_names):
+        return True
+    # comprehension variables and the like: the function as a whole handles task handles
+    for p in cs.caller.params:
+        ann = cs.caller.param_annotation(p)
+        if ann is not None and any(k in ast.unparse(ann) for k in ("AsyncResult", "TaskList", "Future")):
+            return True
+    if any(callee_fq(c2) in (".apply_async", ".submit", ".map_async") for c2 in ana.res.calls(cs.caller)):
+        return True
+    for p in dep.params:
+        ann = cs.caller.param_annotation(p)
+        if ann is not None and any(k in ast.unparse(ann) for k in ("AsyncResult", "TaskList", "Future")):
+            return True
+    return False
 
 
 def _append_sites(bc, cons, target):
